@@ -680,7 +680,8 @@ def deep_diff(a, b, path, allowed, out, seen, limit=6):
     da, db = getattr(a, "__dict__", None), getattr(b, "__dict__", None)
     if isinstance(da, dict) and isinstance(db, dict) and not callable(a):
         for k in db:
-            if k not in da:
+            if k not in da and not (allowed and any(path + (("f", k),) == p for p in allowed)):
+                # (an attribute created by the call is a change of that attribute: allowed when modifies() lists it)
                 out.append(f"{_show_path(path + (('f', k),))}: attribute added")
         for k, x in da.items():
             if k not in db:
